@@ -176,8 +176,9 @@ class FieldArrayModel(FieldCompositeModel):
         return result_bits
         
     def build_sum_expr(self, btor, ctx_width=-1):
-        if self.sum_expr_btor is None:
-            self.sum_expr_btor = self.get_sum_expr().build(btor, ctx_width)
+        # Note: the node depends on the context width, so a node built
+        # for one reference cannot be reused for another
+        self.sum_expr_btor = self.get_sum_expr().build(btor, ctx_width)
         return self.sum_expr_btor
     
     def get_product_expr(self):
@@ -202,8 +203,8 @@ class FieldArrayModel(FieldCompositeModel):
         return self.product_expr
         
     def build_product_expr(self, btor, ctx_width=-1):
-        if self.product_expr_btor is None:
-            self.product_expr_btor = self.get_product_expr().build(btor, ctx_width)
+        # See build_sum_expr
+        self.product_expr_btor = self.get_product_expr().build(btor, ctx_width)
         return self.product_expr_btor    
         
     def accept(self, v):
